@@ -745,13 +745,27 @@ def gen_bodies_cdmeta(src):
     return gen_bodies(src, 'cdmeta')
 
 
+def gen_bodies_tzuse(src):
+    return gen_bodies(src, 'tzuse')
+
+
+def gen_bodies_cdsort(src):
+    return gen_bodies(src, 'cdsort')
+
+
+def gen_bodies_tz(src):
+    return gen_bodies(src, 'tz')
+
+
 # ---------------------------------------------------------------- driver
 
 GENERATORS = [('Parser.lean', gen_parser), ('Cal.lean', gen_cal), ('Prop.lean', gen_prop), (None, gen_misc),
               ('Bodies.lean', gen_bodies), ('BodiesDec.lean', gen_bodies_dec), ('BodiesParser.lean', gen_bodies_parser),
               ('BodiesLine.lean', gen_bodies_line), ('BodiesFold.lean', gen_bodies_fold), ('BodiesText.lean', gen_bodies_text),
               ('BodiesAlarm.lean', gen_bodies_alarm), ('BodiesWalk.lean', gen_bodies_walk), ('BodiesSer.lean', gen_bodies_ser),
-              ('BodiesCDict.lean', gen_bodies_cdict), ('BodiesSE.lean', gen_bodies_se), ('BodiesParse.lean', gen_bodies_parse), ('BodiesRecur.lean', gen_bodies_recur), ('BodiesAdd.lean', gen_bodies_add), ('BodiesCDictMeta.lean', gen_bodies_cdmeta)]
+              ('BodiesCDict.lean', gen_bodies_cdict), ('BodiesSE.lean', gen_bodies_se), ('BodiesParse.lean', gen_bodies_parse), ('BodiesRecur.lean', gen_bodies_recur), ('BodiesAdd.lean', gen_bodies_add), ('BodiesCDictMeta.lean', gen_bodies_cdmeta),
+              ('BodiesTzUse.lean', gen_bodies_tzuse), ('BodiesCDictSort.lean', gen_bodies_cdsort),
+              ('BodiesTz.lean', gen_bodies_tz)]
 
 
 def write_if_changed(path, content):
